@@ -177,7 +177,9 @@ def r11b(F):
 	return out
 
 def r11c(F):
-	return chainrules.threshold_shape(F, '11.c')
+	out = chainrules.threshold_shape(F, '11.c')
+	out += [r for r in chainrules.restart_replay_guard(F, '11.c') if 'open-coded-maturity' not in r.key]
+	return out
 
 def r11d(F):
 	out = chainrules.reorg_boundary(F, '11.d')
